@@ -1181,7 +1181,40 @@ pub fn cost_main(family: &str, n: usize, mode: &str, seed: u64) -> Result<String
             b.rotate_left(l / 2);
             (b, (0, l))
         }
-        _ => return Err("mode must be full, rfull, span, tail or sub".into()),
+        "single0" | "single1" | "single2" => {
+            // Only ONE of the prefilter's candidate bytes occurs (every 8 bytes in
+            // the second half), the others never: a prefilter that looks for its
+            // bytes one after the other scans far for the absent ones while its
+            // answer is always near. The candidate bytes are found by asking the
+            // prefilter itself about one-byte haystacks.
+            let k = mode.as_bytes()[6] as usize - b'0' as usize;
+            let filler = body[0];
+            let l = body.len();
+            let mut cand: Vec<u8> = vec![];
+            if let Ok(n) = cfg.nnfa_builder().build(&pats) {
+                use aho_corasick::automaton::Automaton;
+                if let Some(pre) = n.prefilter() {
+                    for b in 0..=255u8 {
+                        let one = [b];
+                        if b != filler && !matches!(pre.find_in(&one, aho_corasick::Span { start: 0, end: 1 }), aho_corasick::automaton::Candidate::None) {
+                            cand.push(b);
+                        }
+                    }
+                }
+            }
+            let mut h = vec![filler; l];
+            if !cand.is_empty() {
+                // (fewer candidate bytes than k+1: take the last one again)
+                let x = cand[k.min(cand.len() - 1)];
+                let mut i = l / 2;
+                while i < l {
+                    h[i] = x;
+                    i += 8;
+                }
+            }
+            (h, (0, l))
+        }
+        _ => return Err("mode must be full, rfull, single0..2, span, tail or sub".into()),
     };
     let op = if family.starts_with("overlap-") {
         "overlap"
